@@ -326,6 +326,18 @@ Theorem C06_disconnect_old_refuted : exists st s reason u,
 Proof. exact rt_disconnect_old_double_nack. Qed.
 Print Assumptions C06_disconnect_old_refuted.
 
+(* coap_delete_node on a node that is still linked into the queue (inside the library: the delayed
+   multicast response that has just been sent): only that node leaves, all other messages keep
+   deadline and place (finding F06-5, fixed in /repo 99e3a61: LL_DELETE alone lost the node's time) *)
+Theorem C06_delete_linked_node : forall st s m,
+  (forall t n q', sq_remove (rs_q st) s m = Some ((t, n), q') ->
+     rt_delete st s m = (rt_set_q st q', [RoAcked (rs_now st) (qn_uid n)]) /\
+     exists l1 l2 d, sq_abs (rs_base st) (rs_q st) = l1 ++ (d, n) :: l2 /\
+                     sq_abs (rs_base st) q' = l1 ++ l2) /\
+  (sq_remove (rs_q st) s m = None -> rt_delete st s m = (st, [])).
+Proof. exact rt_delete_spec. Qed.
+Print Assumptions C06_delete_linked_node.
+
 (* ---------------------------------------------------------------- the reported wait *)
 (* In every reachable state a prepare call fires everything that is due (its loop bound is never
    hit) and reports 0 iff nothing is pending, else the distance to the earliest pending deadline,
